@@ -154,3 +154,9 @@ package cookies
 // survives until request handling: nothing outside validation reorders, overwrites or appends to that slice
 //@ prop C18
 //@ scan[cookie-domains-frozen-after-validation] slice-field-frozen Cookie.Domains pkg/validation.validateCookie pkg/validation.validateCookie$1
+
+// `stable csrf.time`: the clock field is never assigned after NewCSRF's literal; encodeCookie calls the clock's Now through the
+// field's address (clock.Clock has pointer-receiver methods) and only reads it
+//@ prop C03 C05 C09 C18 C19
+//@ scan[stable:csrf-clock-only-read] field-writers csrf.time pkg/cookies.NewCSRF pkg/cookies.decodeCSRFCookie pkg/cookies.(*csrf).encodeCookie
+
